@@ -531,6 +531,64 @@ func init() {
 			st.States, st.Transitions, st.Nontrivial = st.Execs, st.Execs, st.Execs
 			st.NOutcomes = int(st.Execs)
 		}
+		// upstream options that only the REAL proxy looks at (its transport): after a sequence of updates a request gets
+		// what it gets from an instance freshly started with the last configuration
+		if c.Want("real-proxy-upstream-options") && c.Shard == 3%c.NShards {
+			st := c.Stat("real-proxy-upstream-options", "enumeration")
+			st.Bounds = "upstream option enableH2C in {false, true} against an HTTP/1.1 loopback origin: every sequence of 1..3 settings applied to a running instance, one request after the last; whenever the last setting is off the origin's answer must arrive"
+			origin := httptest.NewServer(http.HandlerFunc(func(w http.ResponseWriter, r *http.Request) {
+				w.Header().Set("Cache-Control", "no-cache")
+				fmt.Fprint(w, "origin-ok")
+			}))
+			mk := func(h2c bool) *config.PikeConfig {
+				return &config.PikeConfig{
+					Caches:    []config.CacheConfig{{Name: "c1", Size: 100, HitForPass: "5m"}},
+					Upstreams: []config.UpstreamConfig{{Name: "u", EnableH2C: h2c, Servers: []config.UpstreamServerConfig{{Addr: origin.URL}}}},
+					Locations: []config.LocationConfig{{Name: "l", Upstream: "u"}},
+					Servers:   []config.ServerConfig{{Addr: "127.0.0.1:0", Locations: []string{"l"}, Cache: "c1"}},
+				}
+			}
+			probe := func() string {
+				e := &env.Env{}
+				e.RebindServersOnly()
+				r := e.Do(env.Req{Method: "POST", URI: "/x", Rid: "p"})
+				if r.Status == 200 {
+					return "200 " + string(r.Body)
+				}
+				return fmt.Sprint(r.Status)
+			}
+			env.Silence()
+			procEnv = nil
+			// (no reference run of a "fresh" instance inside this process: state kept in package-level variables of the
+			// code under test would leak from it into the live runs and back; the expectation is stated directly instead:
+			// with enableH2C off, an HTTP/1.1 origin answers)
+			var seqs [][]bool
+			for n := 1; n <= 3; n++ {
+				for m := 0; m < 1<<uint(n); m++ {
+					var sq []bool
+					for i := 0; i < n; i++ {
+						sq = append(sq, m&(1<<uint(i)) != 0)
+					}
+					seqs = append(seqs, sq)
+				}
+			}
+			sort.SliceStable(seqs, func(i, j int) bool { return seqs[i][0] && !seqs[j][0] })
+			for _, sq := range seqs {
+				env.FreshAll()
+				for _, h := range sq {
+					_ = env.Apply(mk(h))
+				}
+				st.Execs++
+				if got := probe(); !sq[len(sq)-1] && got != "200 origin-ok" {
+					c.Violation("real-proxy-upstream-options", "live-differs-from-fresh-start-upstream-option", fmt.Sprintf("after applying enableH2C %v in turn (the last setting is off) a request through the real proxy to an HTTP/1.1 origin gives %q instead of the origin's answer", sq, got), nil, map[string]interface{}{"sequence": sq}, nil)
+				}
+			}
+			env.FreshAll()
+			procEnv = nil
+			origin.Close()
+			st.States, st.Transitions, st.Nontrivial = st.Execs, st.Execs, st.Execs
+			st.NOutcomes = int(st.Execs)
+		}
 		c16RealProcess(c)
 		// one update that removes several servers at once: every one of them stops listening, the kept one serves on
 		if c.Want("remove-several-servers") && c.Shard == 1%c.NShards {
